@@ -7,4 +7,7 @@ IdxSmall == {0, 4, 5, 7}
 IdxMid   == {0, 1, 4, 5, 6, 7}
 P3 == 0..2
 P4 == 0..3
+P5 == 0..4
+T7 == 0..6
+IdxOne == {0}
 =============================================================================
